@@ -114,7 +114,11 @@ class Check(PropertyCheck):
             tr.reset()
         # (graphs pruned by their owner before the hand-over are left to C12/C18: C17 speaks of the graphs the builders yield - in a
         #  pruned graph `remove_node`'s own sweep of isolated nodes can take an unscheduled operation's node, by design)
-        lines += [f"fres {b} {rm} {rj}", "fsnap"]
+        if rng.random() < 0.12:
+            # the updater is built with subscribe=False and subscribed by hand afterwards (before the first event)
+            lines += [f"fresn {b} {rm} {rj}", "fsub last", "fsnap"]
+        else:
+            lines += [f"fres {b} {rm} {rj}", "fsnap"]
         n_eps = rng.choice([1, 1, 1, 2, 3, 3])       # later episodes start from the graph updater's stored initial graph
         for ep in range(n_eps):
             while not tr.done():
